@@ -132,6 +132,13 @@ def make_confs(rng):
              # the azimuthal rule is exact only beyond the integrand's bandwidth k*rho*sin(lens angle) ~ 35
              # for the farthest point: 40 nodes left an orientation-dependent 6e-4 (seed 2), 64 leave 1e-11
              Lens(0.8, Multisphere(), 40, 64), tol=1e-5),
+        # a pair written exactly along y (equal x to the last bit): every rotation moves it to a generic azimuth
+        Conf("Multisphere/dimer_along_y", [S(1.59, 0.3, (0.25, -0.4, 5.0)), S(1.5, 0.35, (0.25, 0.35, 5.3))], psi, pts(),
+             Multisphere(), tol=1e-7),
+        # a tilted spheroid behind the lens: the wrapped theory is asked about every azimuth of the pupil, and
+        # (unlike the bare T-matrix theory) any polarisation is accepted
+        Conf("Lens(Tmatrix)/spheroid_tilted", [dict(k="spheroid", n=1.59, r=(0.3, 0.5), rot=(0.0, 0.8, 0.4), center=(0.3, -0.2, 3.0))],
+             psi, pts(4), Lens(0.8, Tmatrix(), 32, 64), tol=1e-5),
         # default theory: the Mie-superposition / Multisphere rule looks at the largest centre distance
         # (36 radii here, beyond the 30-radii switch) and must not depend on the in-plane orientation
         Conf("auto/dimer_beyond_switch", [S(1.59, 0.25, (4.3 * math.cos(th0), 4.3 * math.sin(th0), 5.0)),
@@ -148,7 +155,7 @@ def run(ctx):
     quick = ctx.tier == "quick"
     rng = random.Random(ctx.seed)
     ctx.rule = ("TLC enumerates all paths of length <= 3 over 3 lattice shifts, 5 rotations in Z_24 and the "
-                "mirror; the edge cover is applied step by step to 13 generic configurations (Mie, Mie "
+                "mirror; the edge cover is applied step by step to 15 configurations (Mie, Mie "
                 "superposition incl. layered, Multisphere trimer, T-matrix spheroid/cylinder, MieLens above/"
                 "below focus, AberratedMieLens, Lens(Mie) above/below focus, Lens(Multisphere), default theory for a dimer on either side of the 30-radii switch); distinct = "
                 "(configuration, path); non-trivial = path contains a rotation or mirror")
